@@ -66,6 +66,12 @@ type Cand struct {
 	Actor  int            `json:"actor"` // used with Arb only
 	Peer   int            `json:"peer"`  // whose signature CheckUpdate is given
 	BadSig string         `json:"badsig"`
+	// Reuse: the candidate reaches Update in a state OBJECT that passed
+	// CheckUpdate earlier with other content or against an older current state
+	// (1 = an acceptable successor was checked, then the same object was
+	// rewritten in place into the candidate; 2 = an acceptable successor of the
+	// initial state was checked before the history and is submitted after it)
+	Reuse int `json:"reuse,omitempty"`
 }
 
 func bigAdd(b gen.Big, d *big.Int) gen.Big { return gen.BigOf(new(big.Int).Add(b.Int(), d)) }
@@ -731,6 +737,7 @@ func drawUpdateCase(t *rapid.T, app string) Case {
 			cd.Viols = nil
 		}
 	}
+	cd.Reuse = []int{0, 0, 0, 1, 2}[rapid.IntRange(0, 4).Draw(t, "reuse")]
 	c.Cand = cd
 	return c
 }
